@@ -612,8 +612,11 @@ def _sample_dist_output_conditioned_on_postselection(
             np.abs(interferometer[postselect_modes, input_mode]) ** 2
         )
 
-        loss_probability = (
-            1.0 - non_postselect_probabilities.sum() - postselect_probabilities.sum()
+        # NOTE: For a lossless input mode this is zero up to rounding errors, which may
+        # make it slightly negative.
+        loss_probability = max(
+            1.0 - non_postselect_probabilities.sum() - postselect_probabilities.sum(),
+            0.0,
         )
 
         non_postselect_weights = non_postselect_probabilities * future_probability
